@@ -29,7 +29,19 @@ def runC01 (o : XOps α) (r : Req) : Option Resp :=
   match r.op with
   | "nonlin" => some (respOf (nonlinApply o (r.str 0) r.ds (r.fl 1) B x inverse))
   | "cdf" => some (respOf (cdfApply o (cfgOf r) B (r.nat 4) x params inverse))
-  | "coupling" => some (respOf (couplingApply o (cfgOf r) (r.fl 2) B (r.nat 4) x params inverse))
+  | "coupling" =>
+    -- optional unconditional transform of the identity features: s[3] = its family ("" = none), f[3] = its parameters
+    let uc : Option ElCfg := if r.str 3 == "" then none else
+      some { (cfgOf r) with container := "cdf", kind := r.str 3, hiddenFeatures := 0.0, hiddenChannels := 0.0 }
+    some (respOf (couplingApply o (cfgOf r) (r.fl 2) B (r.nat 4) x params inverse uc (r.fl 3 : List α).toArray))
+  | "affine_t" =>
+    -- i = [inverse, _, _, B, nEvent, nScaleDims, nShiftDims, event…, scaleShape…, shiftShape…]; f = [x, scale, shift]
+    let ne := r.nat 4; let ns := r.nat 5; let nh := r.nat 6
+    let ints := r.ints.toList.map Int.toNat
+    let ev := (ints.drop 7).take ne
+    let ss := (ints.drop (7 + ne)).take ns
+    let sh := (ints.drop (7 + ne + ns)).take nh
+    some (respOf (affineTensorApply o ev ss sh params (r.fl 2 : List α).toArray B x inverse))
   | "ar" => some (respOf (arApply o (cfgOf r) B (r.nat 4) x params inverse))
   | _ => none
 
